@@ -43,6 +43,10 @@ def run(tier, seed, replay):
             return True, v["what"], v["task"]
         return None
     chk.run_contract(E, c, replay=replay_cli)
+    # a fatal error is reported by name only if it is the exception main() catches: every
+    # explicit raise outside the tokenizer is CParsingError (the tokenizer's own exceptions are C05)
+    from .C05 import raise_sites
+    raise_sites(chk)
     # frame of the tail: the diagnostics of a file are what the pipeline put into ITS Errors
     # object -- main() must not rebind or share them, and must run the pipeline for every file
     import ast as _ast
